@@ -40,7 +40,7 @@ PROPS = {
     "C05": dict(
         pkg="c05", units=[rapid("TestProp", 36000, 150000), rapid("TestPropEmpty", 24000, 100000), rapid("TestPropMerge", 30000, 150000), rapid("TestPropRepeat", 20000, 100000), fuzz("FuzzOrder", 60)], assumptions=COMMON_ASSUME,
         technique="property-based testing (rapid): ordered, literal-exact comparison with the reference evaluator; order-validity predicate for MergePatch; coverage-guided native fuzzing of the same oracle over raw bytes in the thorough tier",
-        level_text="Generated-input search: Apply outputs are compared member-order- and literal-exactly with the ordered reference result (the model implements the stated order rules), the empty patch must reproduce the input in any spelling, and MergePatch outputs must satisfy the order predicate and carry every number literal. Exploration over generated documents with exotic literals and busy objects; no proof.",
+        level_text="Generated-input search: Apply outputs are compared member-order- and literal-exactly with the ordered reference result (the model implements the stated order rules), the empty patch must reproduce the input in any spelling, and MergePatch outputs must satisfy the order predicate and carry every number literal. Exploration over generated documents with exotic literals and busy objects; no proof. A further unit adds one member to a root object that repeats a member name and requires the empty patch's output plus the new member, byte for byte.",
         level_note="Trusted: harness/ref (ordered tree, literal-preserving reader), rapid, Go toolchain. Order among members newly added by MergePatch is unspecified and not asserted.",
     ),
     "C08": dict(
@@ -89,13 +89,13 @@ PROPS = {
     "C06": dict(
         pkg="c06", units=[rapid("TestProp", 75000, 400000), rapid("TestPropTriple", 30000, 150000), rapid("TestPropMalformed", 45000, 200000), fuzz("FuzzEqual", 60)], assumptions=COMMON_ASSUME,
         technique="property-based testing (rapid): re-serialised / one-edit / independent pairs vs structural equality on an independent tree; equivalence-relation laws on pairs and triples; malformed inputs; coverage-guided native fuzzing of the same oracle over raw bytes in the thorough tier",
-        level_text="Generated-input search: pairs that are equal up to member order, whitespace and escaping, pairs one small edit apart (null<->absent, {}<->[]<->null, renamed member, swapped elements...) and independent pairs are judged by Equal and by structural equality on the independent tree; symmetry, reflexivity and (on triples) transitivity are checked; malformed arguments must give false. Exploration only.",
+        level_text="Generated-input search: pairs that are equal up to member order, whitespace and escaping, pairs one small edit apart (null<->absent, {}<->[]<->null, renamed member, swapped elements...) and independent pairs are judged by Equal and by structural equality on the independent tree; symmetry, reflexivity and (on triples) transitivity are checked; malformed arguments must give false. Exploration only. Includes number pairs differing only in the exponent or the last fraction digit, and well-formed texts wrapped in byte order marks, comments and other things lenient readers skip (must be rejected).",
         level_note="Trusted: harness/ref reader and Equal. Pairs with numerically-equal-but-differently-spelled numbers, lone surrogate escapes, invalid UTF-8 or duplicate names are excluded.",
     ),
     "C07": dict(
         pkg="c07", units=[rapid("TestProp", 45000, 200000), fuzz("FuzzCompose", 60)], assumptions=COMMON_ASSUME,
         technique="property-based testing (rapid): composition law checked through the RFC 7396 reference and through the library's own MergePatch; coverage-guided native fuzzing of the same oracle over raw bytes in the thorough tier",
-        level_text="Generated-input search over triples (D, P1, P2) with P2 mostly a mutation of P1 and nulls at every depth: applying MergeMergePatches(P1,P2) must equal applying P1 then P2, via the reference algorithm and via the library; a non-object P2 must come back as the combined patch. Incompatible pairs are excluded by the property's own condition. Exploration only.",
+        level_text="Generated-input search over triples (D, P1, P2) with P2 mostly a mutation of P1 and nulls at every depth: applying MergeMergePatches(P1,P2) must equal applying P1 then P2, via the reference algorithm and via the library; a non-object P2 must come back as the combined patch. Incompatible pairs are excluded by the property's own condition. Exploration only. For a P1 that repeats a member name only the P1-independent clause is checked: every null member of P2 is a null member of the combined patch.",
         level_note="Trusted: harness/ref Merge. The compatibility condition is computed by the harness exactly as the statement gives it.",
     ),
     "C09": dict(
@@ -116,7 +116,7 @@ PROPS = {
                                      "the expected result of each call is the one computed sequentially in the same process before the goroutines start (C09 separately checks that results do not depend on history)",
                                      "the staged legacy root package is built from /repo's working tree as module github.com/evanphx/json-patch"],
         technique="property-based testing (rapid) of generated concurrent workloads under the Go race detector: shared Patch values and buffers, generated GOMAXPROCS/yields/rounds, cold starts in fresh processes; oracle = race reports + equality with sequentially computed results + unchanged shared inputs",
-        level_text="Generated-input search over concurrent workloads built with -race: 2-16 goroutines behind a start barrier run generated call lists (all exported functions, mostly the same calls on the same shared Patch values and buffers, some on private copies) for 1-3 rounds under GOMAXPROCS 1/2/4/16 with generated yields; some workloads run as cold starts in a fresh process so that first uses of pools and caches are concurrent. Any race report, any result that differs from the sequentially computed one (bytes for Apply/CreateMergePatch/Equal, JSON value for the merge functions, error text) and any change to a shared input is a violation. Exploration: schedules are sampled; the race detector makes detection depend on the conflicting accesses executing, not on the corrupting interleaving occurring.",
+        level_text="Generated-input search over concurrent workloads built with -race: 2-16 goroutines behind a start barrier run generated call lists (all exported functions, mostly the same calls on the same shared Patch values and buffers, some on private copies) for 1-3 rounds under GOMAXPROCS 1/2/4/16 with generated yields; some workloads run as cold starts in a fresh process so that first uses of pools and caches are concurrent. Any race report, any result that differs from the sequentially computed one (bytes for Apply/CreateMergePatch/Equal, JSON value for the merge functions, error text) and any change to a shared input is a violation. Exploration: schedules are sampled; the race detector makes detection depend on the conflicting accesses executing, not on the corrupting interleaving occurring. 'Together' workloads: 6-16 goroutines all start with the same long-running call (objects nested 1 000-3 500 levels, texts of 33-180 KiB, one of them ill-formed) so that many are inside it at once; a goroutine writes to its private argument copies again as soon as a call has returned, so a library goroutine outliving the call is a race.",
         level_note="Trusted: the Go race detector and runtime, harness/calls. A logical race on correctly synchronised state is only seen if it changes a result during the stress (DESIGN.md section 6). Package-level defaults are never written during a workload.",
     ),
     "C11": dict(
